@@ -57,6 +57,9 @@ def _mk_exc(kind, idx, opi=0):
         return WrapError(_Resp((idx, 'w%d' % opi)))
     if kind == 'Prefix':
         return PrefixedError('bad value %s in op%d' % (idx, opi), limit=3)
+    if kind == 'TypeError':
+        # the kind of error a function body raises itself (e.g. adding a str to an int) — not a wrong call signature
+        return TypeError("unsupported operand type(s) for +: 'int' and 'str'", idx, 'op%d' % opi)
     if kind == 'SystemExit':
         return SystemExit(3, opi)
     if kind == 'KeyError':
@@ -567,7 +570,19 @@ def _run(sc, S, obs):
             S.cur.in_user = 1
             try:
                 d = dur_of(op.get('dur'), idx if idx is not None else 0)
-                if d:
+                stubborn = (op.get('stubborn') or {}).get(str(idx))
+                if stubborn:
+                    # a task that cannot be interrupted for a while (a retry loop with a bare except, a long C call):
+                    # whatever is raised into it is swallowed until its time is up
+                    t_end = S.now + float(stubborn)
+                    while S.now < t_end:
+                        try:
+                            sim.time_shim.sleep(t_end - S.now)
+                        except (sim.Stuck, sim.SimAbort):
+                            raise
+                        except BaseException:  # noqa
+                            pass
+                elif d:
                     sim.time_shim.sleep(d)
                 else:
                     S.yield_point('user-body')
